@@ -127,6 +127,12 @@ func c14One(c *vf.Ctx, sub string, i int, r *rand.Rand, ids []Ident) {
 		}
 	}
 	sopts := []dagsync.Option{dagsync.RecvAnnounce(""), dagsync.BlockHook(hook)}
+	shortTimeout := i%3 == 0 && !many
+	stallForever := make(chan struct{})
+	defer close(stallForever)
+	if shortTimeout {
+		sopts = append(sopts, dagsync.HttpTimeout(300*time.Millisecond))
+	}
 	if seg > 0 {
 		sopts = append(sopts, dagsync.SegmentDepthLimit(seg))
 	}
@@ -259,7 +265,16 @@ func c14One(c *vf.Ctx, sub string, i int, r *rand.Rand, ids []Ident) {
 					if rr.Intn(2) == 0 {
 						hold = time.Duration(200+rr.Intn(2500)) * time.Microsecond // newer announcements queue up behind it
 					}
+					// (in runs with a short HTTP timeout some of these syncs fail because the publisher does not answer in
+					// time: the error then is a deadline error, and the notification is due all the same)
+					stalls := shortTimeout && rr.Intn(2) == 0
+					if stalls {
+						c.Inc("announce_syncs_failing_by_http_timeout")
+					}
 					p.front.SetPlan(func(ev ReqEvent) *Fault {
+						if ev.Rsrc == bad && ev.Occur == 0 && stalls {
+							return &Fault{Stall: stallForever, Label: "no answer"}
+						}
 						if ev.Rsrc == bad && ev.Occur == 0 {
 							f := &Fault{Status: 500, Label: "injected"} // only the first request for it fails
 							if hold > 0 {
@@ -427,7 +442,45 @@ func c14One(c *vf.Ctx, sub string, i int, r *rand.Rand, ids []Ident) {
 	endTick := tl.mark("client.end", "", cid.Undef)
 	_ = endTick
 	if closeAtEnd {
+		// in half of these runs one more explicit sync is held at its very end while Close starts: Close lets it
+		// finish, and the notification it then sends is one every listener still registered has to get
+		release := func() {}
+		lastDone := make(chan struct{})
+		if i%2 == 0 {
+			p := pubs[0]
+			p.front.SetPlan(nil)
+			p.mu.Lock()
+			_ = ExtendChain(r, p.st, p.chain, 1, p.id.ID)
+			p.front.Pub.SetRoot(p.chain.Head())
+			p.mu.Unlock()
+			var reached <-chan struct{}
+			reached, release = tl.gateOnce("sync.exit")
+			go func() {
+				defer close(lastDone)
+				explicitSync(p)
+			}()
+			select {
+			case <-reached:
+				c.Inc("syncs_finishing_while_close_is_under_way")
+			case <-lastDone:
+			case <-time.After(30 * time.Second):
+			}
+			go func() {
+				for w := 0; w < 20000 && tl.count("close.begin") == 0; w++ {
+					time.Sleep(500 * time.Microsecond)
+				}
+				time.Sleep(time.Millisecond)
+				release()
+			}()
+		} else {
+			close(lastDone)
+		}
 		cv, cd := vf.Watch(60*time.Second, func() { s.Close() })
+		release()
+		if lv, ld := vf.Watch(60*time.Second, func() { <-lastDone }); lv != vf.Returned {
+			c.Fail(sub, i, "sync-held-at-its-end-did-not-complete-during-close:"+vf.LibFrame(ld), ld, wit())
+			return
+		}
 		if cv != vf.Returned {
 			c.Fail(sub, i, "close-blocked-by-listeners:"+vf.LibFrame(cd), cd, wit())
 			return
